@@ -102,7 +102,7 @@ fn one<T: El>(out: &mut Out, rng: &mut Sm, big: bool) {
     let d = if rng.coin(0.15) { *rng.pick(&[0u64, 1, 2]) } else { rng.range(0, 256) } as usize;
     let n_big = if big { 256 } else { rng.range(1, 256) as usize };
     let seed = if rng.coin(0.2) { *rng.pick(&[0u64, 1, 42, u64::MAX]) } else { rng.next() };
-    let ns: Vec<usize> = (0..4).map(|_| if rng.coin(0.3) { *rng.pick(&[0u64, 1, 2]) as usize } else { rng.below(n_big as u64 + 1) as usize }).collect();
+    let ns: Vec<usize> = (0..4).map(|_| (if rng.coin(0.3) { *rng.pick(&[0u64, 1, 2]) as usize } else { rng.below(n_big as u64 + 1) as usize }).min(n_big)).collect();
     if !out.selected(&id) {
         return;
     }
